@@ -35,6 +35,14 @@ def _transfer_succeeds(ev):
     return None
 
 
+def _mint_fails(ev):
+    # a successful mint reported as refused although balances, supply and votes moved
+    o = ev["op"]
+    if o["op"] == "mint" and ev["res"] == "ok" and o["amt"] > 0 and ev["obs"]["supply"] >= 0:
+        return set_field(ev, ["res"], "fail")
+    return None
+
+
 def _delegate_unauthorised(ev):
     o = ev["op"]
     if o["op"] == "delegate" and ev["res"] == "ok" and o["from"] in o["auth"]:
@@ -62,7 +70,7 @@ MODEL = dict(
              constants=dict(_c, Amts={1}, DTs={0, 2}, Auths="exact", Depth=3, Emit=False),
              thorough=dict(Amts={1, 2}, DTs={0, 1, 2}),
              invariants=["NoViolation", "Refines"]),
-        # two accounts, long histories (checkpoint lists of up to 6 entries)
+        # two accounts, longer histories (5 calls; 6 in the thorough tier)
         dict(name="narrow", module="MC_Votes",
              constants=dict(_c, Acct={"a", "b"}, Amts={1}, DTs={0, 1}, Auths="exact", Depth=4, Emit=False),
              thorough=dict(Depth=5),
@@ -80,7 +88,8 @@ MODEL = dict(
              invariants=["NoViolation"], expect="violation"),
     ],
     quick=dict(sample=2500, drive_runs=288, drive_len=40),
-    thorough=dict(sample=None, drive_runs=4800, drive_len=60),
+    # thorough: a fifth of the 2- and 3-call behaviours TLC emits (each on every applicable flavour)
+    thorough=dict(sample=40000, drive_runs=3200, drive_len=60),
     need=[("mint", "ok"), ("mint", "fail"), ("burn", "ok"), ("burn", "fail"), ("transfer", "ok"),
           ("transfer", "fail"), ("delegate", "ok"), ("delegate", "fail"), ("approve", "ok"),
           ("xfer_from", "ok"), ("xfer_from", "fail"), ("burn_from", "ok"), ("burn_from", "fail")],
@@ -96,6 +105,7 @@ MODEL = dict(
         lambda ev: _bump(ev, ["obs", "supply"]) if ev["obs"]["supply"] >= 0 else None,
         lambda ev: _bump(ev, ["obs", "bal", "c"]) if ev["obs"]["supply"] >= 0 else None,
         _transfer_succeeds,
+        _mint_fails,
         _delegate_unauthorised,
     ],
 )
